@@ -17,7 +17,7 @@ func init() {
 	core.Register(&core.Check{
 		ID:    "C15",
 		Level: "fault_enumeration",
-		Rule: "all function bodies of <=3 (thorough: <=4 over the full alphabet, <=5 over a reduced one) statements over {print, value, defer, guarded defer true/false, return, guarded return true/false, raise, " +
+		Rule: "all function bodies of <=4 statements over the full alphabet and of 5 over a reduced one (thorough: <=5 over the full alphabet) statements over {print, value, defer, guarded defer true/false, return, guarded return true/false, raise, " +
 			"failing call, call of a function with its own defers, deferred expression that raises} plus iterator bodies with yield, each run in 4 contexts (direct call, called from a body with its own defer, inside a try step, iterator next); " +
 			"stdout markers and outcome compared with a defer model; non-trivial = body contains a defer and an exit or a failing statement; distinct = distinct (body, context)",
 		Assumptions: []string{
@@ -305,8 +305,13 @@ func gen(c *core.Ctx, emit func(tcase)) {
 	}
 	fn := []string{"call", "nested", "try"}
 	if c.Thorough() {
+		rec(alphabet, 5, nil, fn)
+		rec(iterAlphabet, 5, nil, []string{"iter"})
+	} else {
 		rec(alphabet, 4, nil, fn)
 		rec(iterAlphabet, 4, nil, []string{"iter"})
+	}
+	if true {
 		// length-5 bodies over the reduced alphabet (only those, shorter ones are covered above)
 		var rec5 func(cur []string)
 		rec5 = func(cur []string) {
@@ -321,9 +326,6 @@ func gen(c *core.Ctx, emit func(tcase)) {
 			}
 		}
 		rec5(nil)
-	} else {
-		rec(alphabet, 3, nil, fn)
-		rec(iterAlphabet, 3, nil, []string{"iter"})
 	}
 }
 
